@@ -420,6 +420,8 @@ def conclude_diff(pid, tier, seed, t0, proof, results, check_impl, features, str
         model = [l for l in r["model"] if not l.startswith(tuple(strip_model_prefixes))] \
             if strip_model_prefixes else r["model"]
         for flag in (model_flags or {}):
+            if r["inst"].get("_refkind") == "unused_route_dangling":
+                break       # deliberately outside the documented format (an unused route that names nothing): loads all the same
             pref = flag.split()[0]
             got = [l for l in r["model"] if l.startswith(pref + " ")]
             if got and got[0] != flag:
